@@ -128,8 +128,28 @@ func outcome(hostPanicked bool, msg string, rec recorded, renterErr error) (stri
 	return "reject", renterErr
 }
 
+// pipe returns the two ends of a loopback TCP connection (buffered, unlike
+// net.Pipe: the handlers answer before the peer has finished writing).
 func pipe() (net.Conn, net.Conn) {
-	a, b := net.Pipe()
+	l, err := net.Listen("tcp", "127.0.0.1:0")
+	if err != nil {
+		panic(err)
+	}
+	defer l.Close()
+	ch := make(chan net.Conn, 1)
+	go func() {
+		c, err := l.Accept()
+		if err != nil {
+			ch <- nil
+			return
+		}
+		ch <- c
+	}()
+	b, err := net.DialTimeout("tcp", l.Addr().String(), 5*time.Second)
+	if err != nil {
+		panic(err)
+	}
+	a := <-ch
 	dl := time.Now().Add(20 * time.Second)
 	a.SetDeadline(dl)
 	b.SetDeadline(dl)
